@@ -239,6 +239,111 @@ theorem racing_duplicates (n : Int) (sched : List Ev) : (sched.foldl (txStep n) 
     | cons ev evs ih => intro st h; exact ih _ (txInv_step n st ev h)
   rcases this.1 with h | ⟨h, _⟩ <;> omega
 
+/-! #### racing requests with *different* nonces of one identity
+
+Transaction `t` submits the nonce `nonceOf t`.  Whatever the schedule, the committed nonce never decreases and
+stays at or above every nonce that was accepted - so a later replay of any accepted request, the highest one
+included, is refused (the `rounds-with-regress` count of the `conc nonces` workload). -/
+
+structure TxStateN where
+  val : Int := 0
+  ver : Nat := 0
+  snap : List (Nat × Int × Nat) := []
+  accepted : List Int := []
+
+def snapOfN (st : TxStateN) (t : Nat) : Option (Int × Nat) := (st.snap.find? (fun e => e.1 == t)).map (·.2)
+
+def txStepN (nonceOf : Nat → Int) (st : TxStateN) : Ev → TxStateN
+  | .start t => { st with snap := (t, st.val, st.ver) :: st.snap }
+  | .commit t =>
+    match snapOfN st t with
+    | none => st
+    | some (v, ver) =>
+      if ver ≠ st.ver then st
+      else if nonceOf t ≤ v then st
+      else { st with val := nonceOf t, ver := st.ver + 1, accepted := nonceOf t :: st.accepted }
+
+def TxInvN (st : TxStateN) : Prop :=
+  (∀ a ∈ st.accepted, a ≤ st.val) ∧
+  (∀ e ∈ st.snap, e.2.2 = st.ver → e.2.1 = st.val) ∧ (∀ e ∈ st.snap, e.2.2 ≤ st.ver)
+
+theorem txInvN_step (nonceOf : Nat → Int) (st : TxStateN) (ev : Ev) (h : TxInvN st) :
+    TxInvN (txStepN nonceOf st ev) ∧ st.val ≤ (txStepN nonceOf st ev).val := by
+  obtain ⟨h1, h2, h3⟩ := h
+  cases ev with
+  | start t =>
+    refine ⟨⟨h1, ?_, ?_⟩, Int.le_refl _⟩
+    · intro e he hv
+      simp only [txStepN, List.mem_cons] at he
+      rcases he with he | he
+      · subst he; rfl
+      · exact h2 e he hv
+    · intro e he
+      simp only [txStepN, List.mem_cons] at he
+      rcases he with he | he
+      · subst he; exact Nat.le_refl _
+      · exact h3 e he
+  | commit t =>
+    simp only [txStepN]
+    split
+    · exact ⟨⟨h1, h2, h3⟩, Int.le_refl _⟩
+    · rename_i v ver hs
+      split
+      · exact ⟨⟨h1, h2, h3⟩, Int.le_refl _⟩
+      · rename_i hver
+        split
+        · exact ⟨⟨h1, h2, h3⟩, Int.le_refl _⟩
+        · rename_i hn
+          have hmem : ∃ e ∈ st.snap, e.2 = (v, ver) := by
+            unfold snapOfN at hs
+            cases hf : st.snap.find? (fun e => e.1 == t) with
+            | none => simp [hf] at hs
+            | some e =>
+              simp [hf] at hs
+              exact ⟨e, List.mem_of_find?_eq_some hf, hs⟩
+          obtain ⟨e, he, hev⟩ := hmem
+          have hver' : ver = st.ver := by simpa using hver
+          have hv : v = st.val := by
+            have := h2 e he (by rw [hev]; exact hver')
+            rw [hev] at this; exact this
+          have hgt : st.val < nonceOf t := by omega
+          refine ⟨⟨?_, ?_, ?_⟩, by simp only; omega⟩
+          · intro a ha
+            simp only [List.mem_cons] at ha
+            rcases ha with ha | ha
+            · subst ha; exact Int.le_refl _
+            · have := h1 a ha; simp only; omega
+          · intro e' he' hv'
+            have := h3 e' he'
+            simp only at hv'; omega
+          · intro e' he'
+            have := h3 e' he'
+            simp only; omega
+
+/-- **racing requests of one identity, optimistic transactions**: after any schedule the committed nonce is at or
+above every accepted one, and it never went down on the way -/
+theorem racing_distinct_never_regress (nonceOf : Nat → Int) (sched : List Ev) :
+    let st := sched.foldl (txStepN nonceOf) {}
+    (∀ a ∈ st.accepted, a ≤ st.val) ∧ 0 ≤ st.val := by
+  have : ∀ st0 : TxStateN, TxInvN st0 →
+      TxInvN (sched.foldl (txStepN nonceOf) st0) ∧ st0.val ≤ (sched.foldl (txStepN nonceOf) st0).val := by
+    induction sched with
+    | nil => intro st0 h; exact ⟨h, Int.le_refl _⟩
+    | cons ev evs ih =>
+      intro st0 h
+      obtain ⟨hi, hle⟩ := txInvN_step nonceOf st0 ev h
+      obtain ⟨hi2, hle2⟩ := ih _ hi
+      exact ⟨hi2, Int.le_trans hle hle2⟩
+  have h0 : TxInvN {} := ⟨by intro a ha; simp at ha, by intro e he; simp at he, by intro e he; simp at he⟩
+  obtain ⟨hi, hle⟩ := this {} h0
+  exact ⟨hi.1, hle⟩
+
+/-- hence a replay of any accepted request after the race is refused by the committed table -/
+theorem replay_after_race_refused (nonceOf : Nat → Int) (sched : List Ev) (a : Int)
+    (ha : a ∈ (sched.foldl (txStepN nonceOf) {}).accepted) :
+    a ≤ (sched.foldl (txStepN nonceOf) {}).val :=
+  (racing_distinct_never_regress nonceOf sched).1 a ha
+
 /-! ### expiring nonce entries (badger driver)
 
 The badger driver stores each accepted nonce with a time-to-live so that the table does not grow
